@@ -365,3 +365,17 @@ package trace
 //@   acquires simpleSpanProcessor.exporterMu
 //@   unchecked frame channel and goroutine plumbing
 //@   requires ssp != nil && ctx != nil
+
+// Shutdown: only the call that wins the compare-and-swap does anything (a second call is a no-op returning nil); when it
+// completes normally the processor list is empty; each processor is shut down through its sync.Once (at most once over
+// Unregister and Shutdown together - sync.Once semantics assumed).
+//@ func (p *TracerProvider) Shutdown(ctx context.Context) (err error)
+//@   prop C15
+//@   acquires p.mu
+//@   unchecked frame a new list is published through an atomic pointer; sync.Once states of the entries
+//@   requires p != nil && ctx != nil && p.spanProcessors.v != 0 && (forall i in 0 .. len(procs(p)) : procs(p)[i] != nil && procs(p)[i].sp != nil)
+//@   ensures old(p.isShutdown.v != 0) ==> err == nil && p.spanProcessors.v == old(p.spanProcessors.v)
+//@   ensures p.isShutdown.v != 0
+//@   assert@return#4 : len(procs(p)) == 0
+//@   canary@return#3 KF-C15-shutdown-cancelled-ctx : len(procs(p)) == 0
+//@   loop#1 invariant p.isShutdown.v != 0 && p.spanProcessors.v == old(p.spanProcessors.v)
